@@ -20,21 +20,26 @@
 (* (awaiter::null_fn) and silently dropped -- exposed by the replay as a   *)
 (* listener that the specification resumes and the implementation does not.*)
 (*                                                                         *)
+(* HookL (hook_up(fn), see SignalConc.tla): pre/post_start, pre_cas,       *)
+(* post_cas_ok (local: fn is called and hands the collector over),        *)
+(* pre/post_handed (local: return of fn and of await_suspend, ~s).         *)
 (* Same constants, listener kinds, ghosts and properties as SignalConc.tla;*)
 (* used with small mixes (1 collector + 1-2 arriving threads, 1-2 calls).  *)
 (***************************************************************************)
 EXTENDS Integers, Sequences, FiniteSets, TLC
 
-CONSTANTS PreL, ThrL, PreCbT, PreCbF, ThrCbT, ThrCbF, NEmit, Form
+CONSTANTS PreL, ThrL, HookL, PreCbT, PreCbF, ThrCbT, ThrCbF, NEmit, Form
 
-CoroL == PreL \cup ThrL
+CoroL == PreL \cup ThrL \cup HookL
 CbTrue == PreCbT \cup ThrCbT
 CbFalse == PreCbF \cup ThrCbF
 Cbs == CbTrue \cup CbFalse
 ThrCb == ThrCbT \cup ThrCbF
-Thr == ThrL \cup ThrCb
+Thr == ThrL \cup ThrCb \cup HookL
 Pre == PreL \cup PreCbT \cup PreCbF
 Listeners == CoroL \cup Cbs
+
+ASSUME Cardinality(HookL) <= 1 /\ (HookL # {} => Pre = {})
 
 CANCEL == -1
 POISON == -9
@@ -66,7 +71,7 @@ Init ==
           /\ nxt = [l \in Listeners |-> IF \E i \in 2..Cardinality(Pre) : order[i] = l
                                           THEN order[(CHOOSE i \in 2..Cardinality(Pre) : order[i] = l) - 1]
                                           ELSE "null"]
-    /\ refs = 1 + Cardinality(ThrCb)
+    /\ refs = IF HookL = {} THEN 1 + Cardinality(ThrCb) ELSE 0
     /\ cur = "null" /\ stor = 0 /\ cvar = 0
     /\ hset = [l \in Listeners |-> l \in Pre]
     /\ lst = [l \in Listeners |-> IF l \in Pre THEN "waiting" ELSE "new"]
@@ -77,6 +82,8 @@ Init ==
     /\ k = 0
     /\ walk = <<>> /\ csp = <<>> /\ run = <<>> /\ casn = "null" /\ dwalk = <<>>
     /\ tpc = [t \in Thr |-> "pre_start"]
+
+Handed == \A h \in HookL : tpc[h] \in {"pre_handed", "post_handed", "pre_dxchg", "post_dxchg", "done"}
 
 ReadVal == IF refs = 0 \/ cur = "null" THEN CANCEL ELSE IF cur = "storage" THEN stor ELSE cvar
 
@@ -130,7 +137,7 @@ DtorLocal ==
 (* collector thread *)
 
 CMark ==
-    /\ cpc \in {"pre_emit", "pre_drop"}
+    /\ cpc \in {"pre_emit", "pre_drop"} /\ Handed
     /\ cpc' = IF cpc = "pre_emit" THEN "post_emit" ELSE "post_drop"
     /\ UNCHANGED <<slot, nxt, refs, cur, stor, cvar, hset, lst, received, sub, nx, k, walk, csp, run, casn, dwalk, tpc>>
 
@@ -203,8 +210,9 @@ CLocDtor ==
 (* listener threads *)
 
 TMark(t) ==
-    /\ tpc[t] = "pre_start"
-    /\ tpc' = [tpc EXCEPT ![t] = "post_start"]
+    /\ tpc[t] \in {"pre_start", "pre_handed"}
+    /\ (tpc[t] = "pre_start" /\ t \notin HookL) => Handed
+    /\ tpc' = [tpc EXCEPT ![t] = IF tpc[t] = "pre_start" THEN "post_start" ELSE "post_handed"]
     /\ UNCHANGED <<slot, nxt, refs, cur, stor, cvar, hset, lst, received, sub, nx, cpc, k, walk, csp, run, casn, dwalk>>
 
 (* the coroutine runs up to await_suspend's CAS: lock, set_handle(h) -- or is resumed at once with the exception;
@@ -216,7 +224,7 @@ TLocStart(t) ==
               /\ lst' = [lst EXCEPT ![t] = "done"]
               /\ tpc' = [tpc EXCEPT ![t] = "done"]
               /\ UNCHANGED <<refs, hset>>
-         ELSE /\ refs' = refs + 1
+         ELSE /\ refs' = IF t \in HookL THEN 2 ELSE refs + 1      \* hook_up: `signal s;` + the lock
               /\ hset' = [hset EXCEPT ![t] = TRUE]
               /\ lst' = [lst EXCEPT ![t] = "casing"]
               /\ tpc' = [tpc EXCEPT ![t] = "pre_cas"]
@@ -246,10 +254,20 @@ TLocRetry(t) ==
    detached, resumed and re-subscribed by the collector thread *)
 TLocDone(t) ==
     /\ tpc[t] = "post_cas_ok"
-    /\ LET r == refs - (IF t \in ThrCb THEN 2 ELSE 1)
+    /\ LET r == IF t \in HookL THEN refs + Cardinality(ThrCb)       \* fn: collector handed over, signal objects made
+                ELSE refs - (IF t \in ThrCb THEN 2 ELSE 1)
        IN  /\ refs' = r
-           /\ IF r = 0 THEN cur' = "null" /\ stor' = 0 /\ tpc' = [tpc EXCEPT ![t] = "pre_dxchg"]
+           /\ IF t \in HookL THEN UNCHANGED <<cur, stor>> /\ tpc' = [tpc EXCEPT ![t] = "pre_handed"]
+              ELSE IF r = 0 THEN cur' = "null" /\ stor' = 0 /\ tpc' = [tpc EXCEPT ![t] = "pre_dxchg"]
                        ELSE UNCHANGED <<cur, stor>> /\ tpc' = [tpc EXCEPT ![t] = "done"]
+    /\ UNCHANGED <<slot, nxt, cvar, hset, lst, received, sub, nx, cpc, k, walk, csp, run, casn, dwalk>>
+
+(* fn returns, await_suspend returns true, its local signal object is destroyed *)
+TLocHanded(t) ==
+    /\ tpc[t] = "post_handed"
+    /\ refs' = refs - 1
+    /\ IF refs = 1 THEN cur' = "null" /\ stor' = 0 /\ tpc' = [tpc EXCEPT ![t] = "pre_dxchg"]
+                   ELSE UNCHANGED <<cur, stor>> /\ tpc' = [tpc EXCEPT ![t] = "done"]
     /\ UNCHANGED <<slot, nxt, cvar, hset, lst, received, sub, nx, cpc, k, walk, csp, run, casn, dwalk>>
 
 TDxchg(t) ==
@@ -265,7 +283,7 @@ TLocDtor(t) ==
     /\ UNCHANGED <<slot, refs, cur, stor, cvar, hset, sub, nx, cpc, k, walk, csp, run, casn>>
 
 CNext == CMark \/ CLocEmit \/ CXchg \/ CLocRun \/ CCas \/ CLocRetry \/ CLocDrop \/ CDxchg \/ CLocDtor
-TNext(t) == TMark(t) \/ TLocStart(t) \/ TCas(t) \/ TLocRetry(t) \/ TLocDone(t) \/ TDxchg(t) \/ TLocDtor(t)
+TNext(t) == TMark(t) \/ TLocStart(t) \/ TCas(t) \/ TLocRetry(t) \/ TLocDone(t) \/ TLocHanded(t) \/ TDxchg(t) \/ TLocDtor(t)
 
 Next == CNext \/ \E t \in Thr : TNext(t)
 
@@ -298,8 +316,8 @@ ChainWellFormed ==
     /\ cpc \notin (CasPcs \cup {"post_cas_ok"}) => casn = "null"
 
 RefsSound ==
-    /\ (cpc \notin {"pre_dxchg", "post_dxchg", "done"}) => refs > 0
-    /\ \A t \in Thr : tpc[t] \in (CasPcs \cup {"post_cas_ok"}) => refs > 0
+    /\ (Handed /\ cpc \notin {"pre_dxchg", "post_dxchg", "done"}) => refs > 0
+    /\ \A t \in Thr : tpc[t] \in (CasPcs \cup {"post_cas_ok", "pre_handed", "post_handed"}) => refs > 0
     /\ refs = 0 => cur = "null"
 
 RaceGuarantee ==
